@@ -14,7 +14,10 @@ THandler == IsEv("handler") /\ (Execute(P) \/ Bypass(P)) /\ Consume
 TSet == IsEv("set") /\ Record(P) /\ loc[P].key = Cur.key /\ Consume
 TUnlock == IsEv("unlock") /\ Unlock(P) /\ loc[P].key = Cur.key /\ Consume
 \* what the client got: an error, the response of its own execution, or the recorded response of the key's execution
+\* (`only`: every execution sends one kept header whose NAME no other execution uses; the answer carries exactly the one of the
+\* execution it reports -- nothing of another key's or another execution's response, and an error carries none)
 TEnd == IsEv("end") /\ pc[P] = "done" /\ out[P].kind = Cur.kind /\ (Cur.kind # "error" => out[P].exec = Cur.exec)
+        /\ Cur.only = (IF Cur.kind = "error" THEN <<>> ELSE <<out[P].exec>>)
         /\ pc' = [pc EXCEPT ![P] = "idle"] /\ UNCHANGED <<store, holder, loc, out, execs>> /\ Consume
 TReset == IsEv("reset") /\ Consume /\ store' = [k \in Keys |-> 0] /\ holder' = [k \in Keys |-> 0]
           /\ pc' = [p \in Procs |-> "idle"] /\ loc' = [p \in Procs |-> NoLoc]
